@@ -30,20 +30,21 @@ func die(f string, a ...any) {
 }
 
 type rewriter struct {
-	fset    *token.FileSet
-	info    *types.Info
-	pkg     *types.Package
-	sites   []string
-	file    string
-	used    bool
-	comms   map[*ast.CommClause]ast.Stmt
-	isDef   map[*ast.CommClause]bool
-	recvs   map[*ast.CallExpr]bool
-	mem     bool
-	labels  map[ast.Stmt]bool // statements that carry a label
-	stats   map[string]int
-	curFunc string
-	ord     map[string]int
+	fset      *token.FileSet
+	info      *types.Info
+	pkg       *types.Package
+	sites     []string
+	file      string
+	used      bool
+	comms     map[*ast.CommClause]ast.Stmt
+	isDef     map[*ast.CommClause]bool
+	recvs     map[*ast.CallExpr]bool
+	poolFiles map[string]bool // files in which sync.Pool was replaced
+	mem       bool
+	labels    map[ast.Stmt]bool // statements that carry a label
+	stats     map[string]int
+	curFunc   string
+	ord       map[string]int
 }
 
 func (r *rewriter) site(n ast.Node, kind string) ast.Expr {
@@ -203,6 +204,17 @@ func (r *rewriter) post(c *astutil.Cursor) bool {
 		if len(n.Names) == 2 && len(n.Values) == 1 {
 			if ce, ok := n.Values[0].(*ast.CallExpr); ok && r.recvs[ce] {
 				ce.Fun = rt("Recv2")
+			}
+		}
+	case *ast.SelectorExpr:
+		// sync.Pool -> simrt.Pool: the runtime's pool hands items out per P and forgets them at GC, so what a
+		// Get returns depends on which thread asked; the simulated pool is a LIFO list, emptied between runs
+		if id, ok := n.X.(*ast.Ident); ok && id.Name == "sync" && n.Sel.Name == "Pool" {
+			if pn, ok := r.info.Uses[id].(*types.PkgName); ok && pn.Imported().Path() == "sync" {
+				c.Replace(rt("Pool"))
+				r.used = true
+				r.stats["pool"]++
+				r.poolFiles[r.file] = true
 			}
 		}
 	case *ast.SendStmt:
@@ -668,7 +680,7 @@ func main() {
 		}
 	}
 	r := &rewriter{fset: p.Fset, info: p.TypesInfo, pkg: p.Types, comms: map[*ast.CommClause]ast.Stmt{},
-		isDef: map[*ast.CommClause]bool{}, recvs: map[*ast.CallExpr]bool{}, labels: map[ast.Stmt]bool{}, stats: map[string]int{}, ord: map[string]int{}}
+		isDef: map[*ast.CommClause]bool{}, recvs: map[*ast.CallExpr]bool{}, poolFiles: map[string]bool{}, labels: map[ast.Stmt]bool{}, stats: map[string]int{}, ord: map[string]int{}}
 	// stable order
 	files := append([]*ast.File(nil), p.Syntax...)
 	sort.Slice(files, func(i, j int) bool {
@@ -691,6 +703,21 @@ func main() {
 		}
 		f.Comments = nil
 		astutil.AddNamedImport(p.Fset, f, "simrt", "verif/simrt")
+		if r.poolFiles[base] {
+			// "sync" may have been imported for the pool only
+			stillUsed := false
+			ast.Inspect(f, func(x ast.Node) bool {
+				if se, ok := x.(*ast.SelectorExpr); ok {
+					if id, ok := se.X.(*ast.Ident); ok && id.Name == "sync" {
+						stillUsed = true
+					}
+				}
+				return !stillUsed
+			})
+			if !stillUsed {
+				astutil.DeleteImport(p.Fset, f, "sync")
+			}
+		}
 		var buf bytes.Buffer
 		if err := format.Node(&buf, p.Fset, f); err != nil {
 			die("format %s: %v", name, err)
